@@ -189,6 +189,11 @@ Fixpoint run_events (fixed : bool) (S : sys) (ops : list sop) : events :=
   | [] => no_events
   | o :: rest => let '(S', _, ev) := step fixed S o in ev_or ev (run_events fixed S' rest)
   end.
+Fixpoint run_flags (fixed : bool) (S : sys) (ops : list sop) : list Z :=
+  match ops with
+  | [] => []
+  | o :: rest => let '(S', flag, _) := step fixed S o in flag :: run_flags fixed S' rest
+  end.
 (* every pull of the run selected at least the days a complete comparison selects *)
 Fixpoint run_complete (fixed : bool) (S : sys) (ops : list sop) : bool :=
   match ops with
